@@ -225,6 +225,9 @@ def prepare(case):
             # rough seconds of vm_compute for the three strategies of this writing (measured: 38-node pattern in a 38-node host
             # 1.3 s per run, 4-node pattern in a 56-node host 0.3 s per run)
             cost["est"] = cost.get("est", 0.0) + len(case["strategies"]) * (1.3 * np_ * nh_ * (np_ + 10) / 69000.0 + 0.3 * (nh_ / 56.0) ** 2)
+            # the exhaustive enumeration of a multi-component pattern explores the cross product of the candidates: measured
+            # 12.6 s for 112 matches in a 62-atom host; it is evaluated twice per writing (strategy ALL and the premise monitor)
+            cost["est"] += 2 * len(rec.raw) * nh_ / 550.0
     except Exception as e:
         case["pre"] = {"error": type(e).__name__ + ": " + str(e)[:120]}
         return case
